@@ -427,4 +427,18 @@ fn mat_inverse_translation_family() {
     assert!(inverse_is_two_sided(&m, 1e-30));
 }
 
+// @ob props=C09 tier=thorough kind=B cfg=core-std timeout=3600
+// @fn Mat4x4::inverse ; Mat4x4::determinant ; Matrix::compose
+// @bound linear part fixed to the reflection that swaps x and y (determinant -1, needs a row exchange); complete in the translation (every t with |t_i| <= 1e6)
+// @clause for EVERY translation part the inverse of "swap x and y, then translate(t)" exists and composes with the original to exactly the identity in both orders
+#[cfg(not(verif_skip_mat_inverse_translation_family_swap))]
+#[kani::proof]
+#[kani::unwind(6)]
+fn mat_inverse_translation_family_swap() {
+    let (tx, ty, tz) = (any_in(-1.0e6, 1.0e6), any_in(-1.0e6, 1.0e6), any_in(-1.0e6, 1.0e6));
+    let m: Mat4x4<RealToReal<3>> = Matrix::new([[0.0, 1.0, 0.0, tx], [1.0, 0.0, 0.0, ty], [0.0, 0.0, 1.0, tz], [0.0, 0.0, 0.0, 1.0]]);
+    kani::cover!(tx > 1.0 && ty < -1.0);
+    assert!(inverse_is_two_sided(&m, 0.0));
+}
+
 include!("gen/dispatch_mat.rs");
